@@ -2,7 +2,7 @@
    Statements only; proofs are in Crdt/YataProofs.v.  The list [l] is one sequence of one replica
    INCLUDING tombstones; [yata_insert] is the transcription of Item::resolve_conflict + relinking. *)
 From Coq Require Import List NArith Bool Permutation.
-From YV Require Import Codec.UpdateV1 Crdt.Doc Crdt.YataProofs.
+From YV Require Import Lib.Bytes Codec.UpdateV1 Crdt.Doc Crdt.YataProofs Crdt.Blocks Crdt.BlocksProofs.
 Import ListNotations.
 
 (* integration only inserts: nothing is moved, dropped or duplicated *)
@@ -43,3 +43,39 @@ Example C04_between_example :
   let l := [mk 1 0 None None; mk 1 1 (Some (mkid 1 0)) None]%N in
   map did (yata_insert l (mk 2 0 (Some (mkid 1 0)) (Some (mkid 1 1)))%N) = [mkid 1 0; mkid 2 0; mkid 1 1]%N.
 Proof. reflexivity. Qed.
+
+(* ---- block layer (Crdt/Blocks.v: ItemPtr::splice, ItemPtr::try_squash, BlockRange slice / merge) ----
+   Blocks are a compression of units: splitting and squashing never change any unit (id, origin, right origin,
+   parent, content), and every condition try_squash tests is NEEDED for that.  Tie to the code: the unit-level
+   view of every replica's full state is compared with the unit-level view of the updates as first emitted
+   (harness hist.rs, runner command `DEC unitcmp`). *)
+Theorem C04_split_changes_no_unit : forall b k l r, blk_wf b = true ->
+  blk_split b k = Some (l, r) -> units_of_block b = units_of_block l ++ units_of_block r.
+Proof. exact blk_split_units. Qed.
+
+Theorem C04_squash_changes_no_unit : forall a b, blk_wf a = true -> blk_wf b = true -> blk_nonempty a = true ->
+  blk_can_squash a b = true -> units_of_block (blk_squash a b) = units_of_block a ++ units_of_block b.
+Proof. exact blk_squash_units. Qed.
+
+Theorem C04_split_then_squash_is_identity : forall b k l r,
+  blk_split b k = Some (l, r) -> blk_can_squash l r = true /\ blk_squash l r = b.
+Proof. exact blk_split_squash. Qed.
+
+(* a block standing for the units of a followed by the units of b exists ONLY under the conditions try_squash tests *)
+Theorem C04_squash_conditions_are_necessary :
+  forall ia oa roa pa psa ca ib ob rob pb psb cb x,
+    content_units ca <> [] -> content_units cb <> [] ->
+    units_of_block x =
+      units_of_block (BItem ia oa roa pa psa ca) ++ units_of_block (BItem ib ob rob pb psb cb) ->
+    let n := N.of_nat (length (content_units ca)) in
+    cl ia = cl ib /\ ck ia + n = ck ib /\ ob = Some (mkid (cl ia) (ck ia + n - 1)) /\
+    roa = rob /\ pa = pb /\ psa = psb /\
+    exists cx, x = BItem ia oa roa pa psa cx /\ content_units cx = content_units ca ++ content_units cb.
+Proof. exact blk_squash_conditions_necessary. Qed.
+
+(* non-vacuity and the witness for the right-origin condition: merging two runs that differ only in their right
+   origin loses the right origin of the second run *)
+Example C04_squash_without_equal_right_origins_changes_units :
+  blk_can_squash blk_ex_ro_a blk_ex_ro_b = false /\
+  units_of_block (blk_squash blk_ex_ro_a blk_ex_ro_b) <> units_of_block blk_ex_ro_a ++ units_of_block blk_ex_ro_b.
+Proof. split; [exact blk_ex_ro_rejected | apply blk_ex_ro_lost]. Qed.
